@@ -128,8 +128,57 @@ class C16(Check):
                 if cur is None:
                     return
             self.compare(ctx, cfg, cur, ref, params, s, last=seq[-1][0])
+            self.validate(ctx, cfg, cur, seq)
 
         return h
+
+    def validate(self, ctx, cfg, out, seq):
+        """Translator validation: the same sequence on the real class with NumPy
+        under a model of the path condition, against the symbolic result."""
+        import aspire.samples as S
+
+        if out.x.ndim != 2:
+            return
+        cls = getattr(S, cfg["cls"])
+        N, d, sub = cfg["N"], cfg["d"], cfg["subset"]
+        sym = {"x": sx.terms(out.x)}
+        for f in FIELDS:
+            if getattr(out, f) is not None:
+                sym[f] = sx.terms(getattr(out, f))
+
+        def runner(env):
+            x = np.asarray(env_array(env, "x", (N, d)))
+            kw = {}
+            if sub in ("all", "ll"):
+                kw["log_likelihood"] = np.asarray(env_array(env, "ll", (N,)))
+            if sub == "all":
+                kw["log_prior"] = np.asarray(env_array(env, "lp", (N,)))
+                kw["log_q"] = np.asarray(env_array(env, "lq", (N,)))
+            if cfg["cls"] == "SMCSamples":
+                kw["beta"] = 0.25
+            cur = cls(x=x, parameters=["alpha", "bravo"], **kw)
+            for step, op in enumerate(seq):
+                kind = op[0]
+                n = len(cur.x)
+                if kind == "slice":
+                    cur = cur[op[1] : op[2]]
+                elif kind == "int":
+                    cur = cur[op[1]]
+                elif kind == "mask":
+                    cur = cur[np.array([bool(env.get(f"m{step}_{i}")) for i in range(n)])]
+                elif kind == "masklist":
+                    cur = cur[[bool((op[1] >> i) & 1) for i in range(n)]]
+                elif kind == "take":
+                    cur = cur[np.array([int(round(float(env.get(f"i{step}_{k}") or 0))) for k in range(op[1])])]
+                elif kind == "split_concat":
+                    cur = cls.concatenate([cur[: op[1]], cur[op[1] :]])
+                elif kind == "pickle":
+                    cur = pickle.loads(pickle.dumps(cur))
+                else:
+                    cur = cls.from_dict(cur.to_dict(flat=kind == "dict_flat"))
+            return {k: np.asarray(getattr(cur, k), float) for k in sym}
+
+        ctx.validate(sym, runner)
 
     def apply(self, ctx, cls, cur, ref, op, step):
         kind = op[0]
